@@ -343,7 +343,8 @@ func flatEvent(kind string, n int) J {
 			kids[i] = ast.NewListNode(ast.NewBinaryNode())
 		}
 	}
-	item := ast.NewListNode(ast.NewListNode(kids...), ast.NewListNode(ast.NewUintNode(1, 7)))
+	// the long list stands behind a sibling, one level further down, with another list behind it
+	item := ast.NewListNode(ast.NewBinaryNode(), ast.NewListNode(ast.NewASCIINode("s"), ast.NewListNode(kids...)), ast.NewListNode(ast.NewUintNode(1, 7)))
 	msg := ast.NewHSMSDataMessage("", 1, 1, 0, "H->E", item, 7, []byte{1, 2, 3, 4}).ToBytes()
 	item, kids = nil, nil
 	nh := 0
